@@ -241,7 +241,8 @@ theorem next_cf_delay_linked (s : State) (now : Nat) (env : Env) (hE : Has env (
 
 /-- **The assumptions `rxActive`, `txCf`, `cfDelay` of `Thr.WorkerPrims` (ThreadedWorker.lean) discharged from the sources.**
     For any `Meths` whose entries `self.is_rx_active` / `self.is_tx_transmitting_cf` / `self.next_cf_delay` ARE the interpreted sources
-    (callees resolved by the same `Meths`), and any core relation `R` that shows `rx_state`, `tx_state` and the two enum constants:
+    (callees resolved by the same `Meths`; only asked in environments `R` relates to a state), and any core relation `R` that shows
+    `rx_state`, `tx_state` and the two enum constants:
     * `rxActive`, `txCf` hold (no further assumption);
     * `cfDelay` (`∃ d : Int, next_cf_delay() = pint d` while CFs are transmitted) holds PROVIDED the two `Timer` methods answer a `bool`
       and an `int`.  `pint d` is ThreadedWorker's convention "an integer stands for each float" (`Spec.float`); under the exact
@@ -252,27 +253,27 @@ theorem next_cf_delay_linked (s : State) (now : Nat) (env : Env) (hE : Has env (
 theorem workerPrims_of_src {M : Meths} {R : Env → State → Prop}
     (hR : ∀ env s, R env s → env "self.rx_state" = some (pubRxStPV s.rxState) ∧ env "self.RxState.IDLE" = some (pubRxStPV .idle) ∧
       env "self.tx_state" = some (txStPV s.txState) ∧ env "self.TxState.TRANSMIT_CF" = some (txStPV .transmitCf))
-    (h1 : ∀ env, M.fn "self.is_rx_active" [] env = retM M env Src.TransportLayerLogic_is_rx_active)
-    (h2 : ∀ env, M.fn "self.is_tx_transmitting_cf" [] env = retM M env Src.TransportLayerLogic_is_tx_transmitting_cf)
-    (h3 : ∀ env, M.fn "self.next_cf_delay" [] env = retM M env Src.TransportLayerLogic_next_cf_delay)
+    (h1 : ∀ env s, R env s → M.fn "self.is_rx_active" [] env = retM M env Src.TransportLayerLogic_is_rx_active)
+    (h2 : ∀ env s, R env s → M.fn "self.is_tx_transmitting_cf" [] env = retM M env Src.TransportLayerLogic_is_tx_transmitting_cf)
+    (h3 : ∀ env s, R env s → M.fn "self.next_cf_delay" [] env = retM M env Src.TransportLayerLogic_next_cf_delay)
     (hTo : ∀ env, ∃ b : Bool, M.fn "self.timer_tx_stmin.is_timed_out" [] env = .ok (pbool b))
     (hRem : ∀ env, ∃ d : Int, M.fn "self.timer_tx_stmin.remaining" [] env = .ok (pint d))
     (hW : ∀ (env : Env) (v : PV), M.proc "self.params.wait_func" [v] env = .ok env)
     (hT : ∀ (env : Env), ∃ b : Bool, M.fn "self.is_tx_throttled" [] env = .ok (pbool b)) : Thr.WorkerPrims M R where
   rxActive := fun env s h => by
     obtain ⟨a, b, -, -⟩ := hR env s h
-    rw [h1, retM, is_rx_active_agrees s M env a b]; rfl
+    rw [h1 env s h, retM, is_rx_active_agrees s M env a b]; rfl
   txCf := fun env s h => by
     obtain ⟨-, -, c, d⟩ := hR env s h
-    rw [h2, retM, is_tx_transmitting_cf_agrees s M env c d]; rfl
+    rw [h2 env s h, retM, is_tx_transmitting_cf_agrees s M env c d]; rfl
   cfDelay := fun env s h hcf => by
     obtain ⟨-, -, c, d⟩ := hR env s h
     obtain ⟨b, hb⟩ := hTo env
     obtain ⟨r, hr⟩ := hRem env
     have hc : M.fn "self.is_tx_transmitting_cf" [] env = .ok (pbool true) := by
-      rw [h2, retM, is_tx_transmitting_cf_agrees s M env c d, hcf]; rfl
+      rw [h2 env s h, retM, is_tx_transmitting_cf_agrees s M env c d, hcf]; rfl
     refine ⟨if b then 0 else r, ?_⟩
-    rw [h3, retM, next_cf_delay_run M env true b (pint r) hc (fun _ => hb) (fun _ _ => hr)]
+    rw [h3 env s h, retM, next_cf_delay_run M env true b (pint r) hc (fun _ => hb) (fun _ _ => hr)]
     cases b <;> rfl
   waitFunc := hW
   throttled := hT
@@ -281,4 +282,704 @@ theorem workerPrims_of_src {M : Meths} {R : Env → State → Prop}
 theorem delay_gt_zero_secs (n : Int) : evalCmp .gt (secs n) (pint 0) = .ok (pbool (decide (0 < n))) := by
   simp [secs, evalCmp, isNumber, numLt, PyVal.isInt, PyVal.intVal, Except.map]
 
+/-! ## 4. `sleep_time`
+
+  Source: `key = (self.rx_state, self.tx_state); if key in self.timings: return self.timings[key] else: return 0.001`, where
+  `self.timings` is a `dict` keyed by PAIRS (`__init__`: `{(IDLE, IDLE): 0.02, (IDLE, WAIT_FC): 0.005}`; `set_sleep_timing`).
+
+  The interpreter (frozen) has no value for such an object and no hook for the two operations on it: `.cmp .isIn` / `.index` are evaluated
+  by `evalCmp` / `eval` directly (never through `Meths`), `evalCmp .isIn` accepts only a `.list` of SCALARS on the right and compares
+  them with `pvEq`, which is `false` between the tuple `key` (a `.list`) and any scalar; `.index` wants an integer index.  Hence:
+  * `sleep_time_interp`: for EVERY value bound to `self.timings` the interpretation is either an interpreter error (`unsupported`, not
+    a Python exception) or the default branch - it never reaches `self.timings[key]`;
+  * `sleep_time_dict_outside_subset`: so no presentation of the dict makes the interpreted source return the entry of `(IDLE, IDLE)`.
+  The lookup part of `sleep_time` therefore stays OUTSIDE the source-agreement theorems.  What IS proved about the source text:
+  its shape (`sleep_time_src`), the key it builds (`sleep_time_key`), and that the shape computes the association-list lookup with
+  default `0.001` (`sleepTimeOf`) for ANY two expressions that implement "`key in d`" / "`d[key]`" (`sleep_skeleton_agrees`). -/
+
+/-- `key = (self.rx_state, self.tx_state)` -/
+def keyStmt : PStmt := .assign "key" (.lst (.cons (.var "self.rx_state") (.cons (.var "self.tx_state") .nil)))
+/-- `0.001` -/
+def dfltExpr : PExpr := .call "__float__" (.cons (.strLit "0.001") .nil)
+
+/-- `key = ...; if <c>: return <i> else: return 0.001` -/
+def sleepSkeleton (c i : PExpr) : PBlock :=
+  .cons keyStmt (.cons (.ite c (.cons (.ret i) .nil) (.cons (.ret dfltExpr) .nil)) .nil)
+
+/-- the dumped source IS the skeleton with `key in self.timings` and `self.timings[key]` -/
+theorem sleep_time_src : Src.TransportLayerLogic_sleep_time =
+    sleepSkeleton (.cmp .isIn (.var "key") (.var "self.timings")) (.index (.var "self.timings") (.var "key")) := rfl
+
+/-- the key is the pair (rx state, tx state) -/
+theorem sleep_time_key (M : Meths) (env : Env) (a b : Sc) (hrx : env "self.rx_state" = some (.sc a)) (htx : env "self.tx_state" = some (.sc b)) :
+    execStmt M env keyStmt = .ok (.next (env.set "key" (.list [a, b]))) := by
+  simp [keyStmt, execStmt, eval, evalArgs, hrx, htx, List.mapM_cons, List.mapM_nil]
+
+/-- what the interpreter makes of `sleep_time()` for EVERY value `v` of `self.timings`: a list of scalars never contains the pair, so the
+    default is returned; anything else is an interpreter error -/
+theorem sleep_time_interp (M : Meths) (env : Env) (a b : Sc) (v : PV) (hrx : env "self.rx_state" = some (.sc a))
+    (htx : env "self.tx_state" = some (.sc b)) (hv : env "self.timings" = some v) :
+    runFn M env Src.TransportLayerLogic_sleep_time =
+      match v with
+      | .list _ => (M.fn "__float__" [.str "0.001"] (env.set "key" (.list [a, b]))).map (fun d => (d, env.set "key" (.list [a, b])))
+      | _ => .error (.unsupported "in: right operand is not a list literal") := by
+  have hk := sleep_time_key M env a b hrx htx
+  have hv' : (env.set "key" (.list [a, b])) "self.timings" = some v := by simp [set_get, hv]
+  have hkk : (env.set "key" (.list [a, b])) "key" = some (.list [a, b]) := by simp [set_get]
+  rw [sleep_time_src]
+  unfold sleepSkeleton runFn
+  rw [cons_next hk]
+  cases v with
+  | list xs =>
+    have hany : (xs.any fun x => pvEq (.list [a, b]) (.sc x)) = false := by
+      rw [List.any_eq_false]; intro x _; simp [pvEq]
+    simp only [execBlock, execStmt, eval, hv', hkk, ok_bind, evalCmp_isIn, hany, truthy_pbool, Bool.false_eq_true, if_false, dfltExpr,
+      evalArgs, evalBuiltin_none "__float__" _ (by decide)]
+    cases M.fn "__float__" [.str "0.001"] (env.set "key" (.list [a, b])) <;> rfl
+  | sc x => simp [execBlock, execStmt, eval, hv', hkk, evalCmp]
+  | bytes x => simp [execBlock, execStmt, eval, hv', hkk, evalCmp]
+  | str x => simp [execBlock, execStmt, eval, hv', hkk, evalCmp]
+  | meth x => simp [execBlock, execStmt, eval, hv', hkk, evalCmp]
+
+/-- **the dict lookup is outside the subset**: whatever is bound to `self.timings`, whatever the callees, the interpreted `sleep_time()`
+    either fails or returns what the DEFAULT branch returns (`__float__ "0.001"`) - in particular in the state `(IDLE, IDLE)`, where the
+    real dict has an entry (`0.02`; checked on the real code) -/
+theorem sleep_time_dict_outside_subset (M : Meths) (env : Env) (a b : Sc) (v : PV) (hrx : env "self.rx_state" = some (.sc a))
+    (htx : env "self.tx_state" = some (.sc b)) (hv : env "self.timings" = some v) :
+    (∃ e, runFn M env Src.TransportLayerLogic_sleep_time = .error e) ∨
+    (∃ d env', runFn M env Src.TransportLayerLogic_sleep_time = .ok (d, env') ∧ M.fn "__float__" [.str "0.001"] env' = .ok d) := by
+  rw [sleep_time_interp M env a b v hrx htx hv]
+  cases v with
+  | list xs =>
+    cases h : M.fn "__float__" [.str "0.001"] (env.set "key" (.list [a, b])) with
+    | error e => exact .inl ⟨e, rfl⟩
+    | ok d => exact .inr ⟨d, _, rfl, h⟩
+  | sc x => exact .inl ⟨_, rfl⟩
+  | bytes x => exact .inl ⟨_, rfl⟩
+  | str x => exact .inl ⟨_, rfl⟩
+  | meth x => exact .inl ⟨_, rfl⟩
+
+/-- the reference: lookup of the pair in an association list, default `dflt` -/
+def sleepTimeOf (d : List ((RxSt × TxSt) × PV)) (dflt : PV) (rx : RxSt) (tx : TxSt) : PV :=
+  match d.lookup (rx, tx) with
+  | some v => v
+  | none => dflt
+
+/-- the dict `__init__` builds (`t1`, `t2`: how `0.02`, `0.005` are shown) -/
+def initTimings (t1 t2 : PV) : List ((RxSt × TxSt) × PV) := [((.idle, .idle), t1), ((.idle, .waitFc), t2)]
+
+theorem sleepTimeOf_init (t1 t2 dflt : PV) (rx : RxSt) (tx : TxSt) :
+    sleepTimeOf (initTimings t1 t2) dflt rx tx =
+      if rx = .idle ∧ tx = .idle then t1 else if rx = .idle ∧ tx = .waitFc then t2 else dflt := by
+  cases rx <;> cases tx <;> rfl
+
+/-- **the shape of `sleep_time` computes the lookup**, for any two expressions `c`, `i` that implement `key in d` and `d[key]` on the pair
+    bound to `key` (the two operations the interpreter lacks): the result is `sleepTimeOf d 0.001 rx tx`; only the local `key` is
+    written. -/
+theorem sleep_skeleton_agrees (M : Meths) (env : Env) (s : State) (d : List ((RxSt × TxSt) × PV)) (dflt : PV) (c i : PExpr)
+    (hrx : env "self.rx_state" = some (pubRxStPV s.rxState)) (htx : env "self.tx_state" = some (txStPV s.txState))
+    (hc : ∀ env' : Env, env' "key" = some (.list [.enum "RxState" (match s.rxState with | .idle => "IDLE" | .waitCf => "WAIT_CF"),
+        .enum "TxState" (txStName s.txState)]) → eval M env' c = .ok (pbool (d.lookup (s.rxState, s.txState)).isSome))
+    (hi : ∀ env' : Env, env' "key" = some (.list [.enum "RxState" (match s.rxState with | .idle => "IDLE" | .waitCf => "WAIT_CF"),
+        .enum "TxState" (txStName s.txState)]) → ∀ v : PV, d.lookup (s.rxState, s.txState) = some v → eval M env' i = .ok v)
+    (hd : ∀ env' : Env, M.fn "__float__" [.str "0.001"] env' = .ok dflt) :
+    ∃ env', runFn M env (sleepSkeleton c i) = .ok (sleepTimeOf d dflt s.rxState s.txState, env') ∧
+      ∀ k, k ≠ "key" → env' k = env k := by
+  have hrx' : env "self.rx_state" = some (.sc (.enum "RxState" (match s.rxState with | .idle => "IDLE" | .waitCf => "WAIT_CF"))) := by
+    rw [hrx]; cases s.rxState <;> rfl
+  have hk := sleep_time_key M env _ _ hrx' htx
+  obtain ⟨kv, hkv⟩ : ∃ kv : PV, kv = .list [.enum "RxState" (match s.rxState with | .idle => "IDLE" | .waitCf => "WAIT_CF"),
+    .enum "TxState" (txStName s.txState)] := ⟨_, rfl⟩
+  rw [← hkv] at hk hc hi
+  refine ⟨env.set "key" kv, ?_, fun k hk' => by simp [set_get, hk']⟩
+  unfold sleepSkeleton runFn
+  rw [cons_next hk]
+  have hc' := hc (env.set "key" kv) (by simp [set_get])
+  cases hl : d.lookup (s.rxState, s.txState) with
+  | none =>
+    rw [hl] at hc'
+    simp [execBlock, execStmt, hc', dfltExpr, eval, evalArgs, evalBuiltin_none "__float__" _ (by decide), hd, sleepTimeOf, hl]
+  | some v =>
+    rw [hl] at hc'
+    simp [execBlock, execStmt, hc', hi (env.set "key" kv) (by simp [set_get]) v hl, sleepTimeOf, hl]
+
+/-! ## 5. `RateLimiter.can_be_enabled`, `RateLimiter.set_bitrate`
+
+  `can_be_enabled` converts each of `mean_bitrate`, `window_size_sec` with `float(...)` under a bare `except:` (dumped as `tryExcept`:
+  one expression statement, so the first semantics applies), then tests `float(...) <= 0`.  `float` is a callee: as a statement
+  (`Meths.proc`, inside the `try`) and as an expression (`Meths.fn`, in the test); `FloatConv M conv` says both are the same conversion
+  `conv`, without effect, and `NumConv conv` that it yields a number or raises a Python exception (`TypeError` / `ValueError` /
+  `OverflowError`: what `float()` raises). -/
+
+structure FloatConv (M : Meths) (conv : PV → Except PErr PV) : Prop where
+  fn : ∀ (v : PV) (env : Env), M.fn "float" [v] env = conv v
+  proc : ∀ (v : PV) (env : Env), M.proc "float" [v] env = (conv v).map (fun _ => env)
+
+/-- the conversion returns a number or raises an exception -/
+def NumConv (conv : PV → Except PErr PV) : Prop :=
+  ∀ v, (∃ x, conv v = .ok (.sc (.py x)) ∧ isNumber x = true) ∨ (∃ e, conv v = .error (.exc e))
+
+/-- Python's `x <= 0` on a number: NOT the negation of `x > 0` (`nan`) -/
+def leZero : PyVal → Bool
+  | .bool b => !b
+  | .int i => decide (i ≤ 0)
+  | .float n _ => decide (n ≤ 0)
+  | .negInf => true
+  | _ => false
+
+theorem evalCmp_le_zero (x : PyVal) (h : isNumber x = true) : evalCmp .le (.sc (.py x)) (pint 0) = .ok (pbool (leZero x)) := by
+  cases x with
+  | none => simp [isNumber] at h
+  | str t => simp [isNumber] at h
+  | other t => simp [isNumber] at h
+  | nan => rfl
+  | posInf => rfl
+  | negInf => rfl
+  | bool b => cases b <;> rfl
+  | int i =>
+    rw [show (PV.sc (.py (.int i))) = pint i from rfl, evalCmp_le_pint]; rfl
+  | float n d =>
+    simp only [evalCmp, isNumber, numLt, PyVal.pyEq, PyVal.isInt, PyVal.intVal, bind, Except.bind, leZero]
+    by_cases h1 : n < 0 <;> by_cases h2 : n = 0 <;> by_cases h3 : n ≤ 0 <;> simp [h1, h2, h3] <;> omega
+
+/-- the number `float(v)` is, `none` when the conversion raises -/
+def numOf (conv : PV → Except PErr PV) (v : PV) : Option PyVal :=
+  match conv v with
+  | .ok (.sc (.py x)) => some x
+  | _ => none
+
+/-- the reference: why the limiter cannot be enabled (`none`: it can) -/
+def canReason (conv : PV → Except PErr PV) (mb ws : PV) : Option String :=
+  match numOf conv mb with
+  | none => some "mean_bitrate is not numerical"
+  | some x =>
+    if leZero x then some "mean_bitrate must be greater than 0" else
+    match numOf conv ws with
+    | none => some "window_size_sec is not numerical"
+    | some y => if leZero y then some "window_size_sec must be greater than 0" else none
+
+/-- `try: float(self.<attr>)  except: self.error_reason = <msg>; return False` -/
+theorem try_float_stmt (M : Meths) (conv : PV → Except PErr PV) (hF : FloatConv M conv) (hN : NumConv conv) (env : Env) (attr msg : String)
+    (v : PV) (hv : env attr = some v) :
+    execStmt M env (.tryExcept (.cons (.expr (.call "float" (.cons (.var attr) .nil))) .nil)
+        (.cons (.assign "self.error_reason" (.strLit msg)) (.cons (.ret .ff) .nil))) =
+      match numOf conv v with
+      | some _ => .ok (.next env)
+      | none => .ok (.returned (pbool false) (env.set "self.error_reason" (.str msg))) := by
+  rcases hN v with ⟨x, hx, -⟩ | ⟨e, he⟩
+  · simp [execStmt, execBlock, eval, evalArgs, hv, evalBuiltin_none "float" _ (by decide), hF.proc, hx, numOf]
+  · simp [execStmt, execBlock, eval, evalArgs, hv, evalBuiltin_none "float" _ (by decide), hF.proc, he, numOf]
+
+/-- `if float(self.<attr>) <= 0: self.error_reason = <msg>; return False` (after the `try` succeeded) -/
+theorem le_guard_stmt (M : Meths) (conv : PV → Except PErr PV) (hF : FloatConv M conv) (env : Env) (attr msg : String)
+    (v : PV) (x : PyVal) (hv : env attr = some v) (hx : conv v = .ok (.sc (.py x))) (hn : isNumber x = true) :
+    execStmt M env (.ite (.cmp .le (.call "float" (.cons (.var attr) .nil)) (.int (0)))
+        (.cons (.assign "self.error_reason" (.strLit msg)) (.cons (.ret .ff) .nil)) .nil) =
+      if leZero x then .ok (.returned (pbool false) (env.set "self.error_reason" (.str msg))) else .ok (.next env) := by
+  have hc : eval M env (.cmp .le (.call "float" (.cons (.var attr) .nil)) (.int (0))) = .ok (pbool (leZero x)) := by
+    simp only [eval, evalArgs, hv, ok_bind, evalBuiltin_none "float" _ (by decide), hF.fn, hx]
+    exact evalCmp_le_zero x hn
+  simp only [execStmt, hc, ok_bind, truthy_pbool]
+  cases leZero x <;> simp [execBlock, execStmt, eval]
+
+/-- **`can_be_enabled()` = `canReason`**: `True` (object untouched; in particular a stale `error_reason` stays) when `canReason` is
+    `none`, otherwise `False` with `error_reason` set to the reason; nothing else is written. -/
+theorem can_be_enabled_agrees (M : Meths) (conv : PV → Except PErr PV) (hF : FloatConv M conv) (hN : NumConv conv) (env : Env) (mb ws : PV)
+    (h1 : env "self.mean_bitrate" = some mb) (h2 : env "self.window_size_sec" = some ws) :
+    runFn M env Src.RateLimiter_can_be_enabled =
+      .ok (match canReason conv mb ws with
+           | none => (pbool true, env)
+           | some r => (pbool false, env.set "self.error_reason" (.str r))) := by
+  unfold Src.RateLimiter_can_be_enabled
+  have t1 := try_float_stmt M conv hF hN env "self.mean_bitrate" "mean_bitrate is not numerical" mb h1
+  have t2 := try_float_stmt M conv hF hN env "self.window_size_sec" "window_size_sec is not numerical" ws h2
+  rcases hN mb with ⟨x, hx, hnx⟩ | ⟨e, he⟩
+  · have n1 : numOf conv mb = some x := by simp [numOf, hx]
+    rw [n1] at t1
+    have g1 := le_guard_stmt M conv hF env "self.mean_bitrate" "mean_bitrate must be greater than 0" mb x h1 hx hnx
+    cases hl1 : leZero x
+    · rw [hl1] at g1
+      simp only [Bool.false_eq_true, if_false] at g1
+      rcases hN ws with ⟨y, hy, hny⟩ | ⟨e, he⟩
+      · have n2 : numOf conv ws = some y := by simp [numOf, hy]
+        rw [n2] at t2
+        have g2 := le_guard_stmt M conv hF env "self.window_size_sec" "window_size_sec must be greater than 0" ws y h2 hy hny
+        cases hl2 : leZero y
+        · rw [hl2] at g2
+          simp only [Bool.false_eq_true, if_false] at g2
+          apply runFn_ret
+          rw [cons_next t1, cons_next g1, cons_next t2, cons_next g2]
+          simp [execBlock, execStmt, eval, canReason, n1, n2, hl1, hl2]
+        · rw [hl2] at g2
+          simp only [if_true] at g2
+          apply runFn_ret
+          rw [cons_next t1, cons_next g1, cons_next t2, cons_ret g2]
+          simp [canReason, n1, n2, hl1, hl2]
+      · have n2 : numOf conv ws = none := by simp [numOf, he]
+        rw [n2] at t2
+        apply runFn_ret
+        rw [cons_next t1, cons_next g1, cons_ret t2]
+        simp [canReason, n1, n2, hl1]
+    · rw [hl1] at g1
+      simp only [if_true] at g1
+      apply runFn_ret
+      rw [cons_next t1, cons_ret g1]
+      simp [canReason, n1, hl1]
+  · have n1 : numOf conv mb = none := by simp [numOf, he]
+    rw [n1] at t1
+    apply runFn_ret
+    rw [cons_ret t1]
+    simp [canReason, n1]
+
+/-- `can_be_enabled()` is `True` iff both attributes convert to a number that is NOT `<= 0`.  For finite numbers and the infinities that
+    is "`> 0`"; for `nan` it is not: `nan <= 0` is `False`, so a `nan` passes (`can_be_enabled_nan`). -/
+theorem canReason_none_iff (conv : PV → Except PErr PV) (mb ws : PV) :
+    canReason conv mb ws = none ↔
+      ∃ x y, numOf conv mb = some x ∧ numOf conv ws = some y ∧ leZero x = false ∧ leZero y = false := by
+  unfold canReason
+  cases h1 : numOf conv mb with
+  | none => simp
+  | some x =>
+    cases hl1 : leZero x with
+    | true => simp [hl1]
+    | false =>
+      cases h2 : numOf conv ws with
+      | none => simp [hl1]
+      | some y => cases hl2 : leZero y <;> simp [hl1, hl2]
+
+/-- `leZero` is `≤ 0` on the finite numbers -/
+theorem leZero_int (i : Int) : leZero (.int i) = decide (i ≤ 0) := rfl
+theorem leZero_float (n : Int) (d : Nat) : leZero (.float n d) = decide (n ≤ 0) := rfl
+theorem leZero_nan : leZero .nan = false := rfl
+
+/-- Python's `float()` on the scalars of the embedding: numbers are kept (numerically), everything else raises `TypeError` (a string
+    that spells a number would convert in Python; the model's `PyVal.str` carries no text, so strings are taken as non-numeric here) -/
+def pyFloat : PV → Except PErr PV
+  | .sc (.py v) => if isNumber v then .ok (.sc (.py v)) else .error (.exc .TypeError)
+  | _ => .error (.exc .TypeError)
+
+theorem pyFloat_num : NumConv pyFloat := by
+  intro v
+  cases v with
+  | sc s =>
+    cases s with
+    | py x =>
+      cases hx : isNumber x
+      · exact .inr ⟨.TypeError, by simp [pyFloat, hx]⟩
+      · exact .inl ⟨x, by simp [pyFloat, hx], hx⟩
+    | enum c m => exact .inr ⟨.TypeError, rfl⟩
+  | list xs => exact .inr ⟨.TypeError, rfl⟩
+  | bytes b => exact .inr ⟨.TypeError, rfl⟩
+  | str s => exact .inr ⟨.TypeError, rfl⟩
+  | meth n => exact .inr ⟨.TypeError, rfl⟩
+
+/-- `float` as a callee, both ways -/
+def floatMeths (conv : PV → Except PErr PV) : Meths where
+  fn name args _ :=
+    match name, args with
+    | "float", [v] => conv v
+    | _, _ => .error (.unsupported ("call " ++ name))
+  proc name args env :=
+    match name, args with
+    | "float", [v] => (conv v).map (fun _ => env)
+    | _, _ => .error (.unsupported ("call " ++ name))
+
+theorem floatMeths_conv (conv : PV → Except PErr PV) : FloatConv (floatMeths conv) conv := ⟨fun _ _ => rfl, fun _ _ => rfl⟩
+
+/-- SUSPICIOUS (real code agrees, see the report): a `nan` bitrate (or window) passes `can_be_enabled`, although it is not "greater
+    than 0": `float('nan') <= 0` is `False`.  (`RateLimiter(mean_bitrate=nan)` then enables itself with `window_bit_max = nan` and
+    `allowed_bytes()` raises `ValueError` from `math.floor`.  Unreachable through `TransportLayerLogic`: `Params.validate` requires an
+    `int` bitrate and a finite window since the repair of D10.) -/
+theorem can_be_enabled_nan (env : Env) (h1 : env "self.mean_bitrate" = some (.sc (.py .nan)))
+    (h2 : env "self.window_size_sec" = some (.sc (.py (.float 1 10)))) :
+    runFn (floatMeths pyFloat) env Src.RateLimiter_can_be_enabled = .ok (pbool true, env) := by
+  rw [can_be_enabled_agrees _ pyFloat (floatMeths_conv _) pyFloat_num env _ _ h1 h2]
+  rfl
+
+/-- **`set_bitrate(mean_bitrate)`**: the attribute is overwritten with the argument, unchecked and unconverted; nothing else - in
+    particular `window_bit_max` (only recomputed by `reset()`) and `enabled` keep their values.  (The model's `Limiter` has no
+    bitrate field: its budget `cfg.rlBitMax` is read from `window_bit_max` after construction; nothing in the package calls
+    `set_bitrate`.) -/
+theorem set_bitrate_agrees (M : Meths) (env : Env) (v : PV) (h : env "mean_bitrate" = some v) :
+    runFn M env Src.RateLimiter_set_bitrate = .ok (pnone, env.set "self.mean_bitrate" v) := by
+  simp [runFn, Src.RateLimiter_set_bitrate, execBlock, execStmt, eval, h]
+
+theorem set_bitrate_frame (env : Env) (v : PV) (k : String) (hk : k ≠ "self.mean_bitrate") :
+    (env.set "self.mean_bitrate" v) k = env k := by simp [set_get, hk]
+
+/-! ## 6. `TransportLayer._read_relay_queue` (second semantics), `NotifierBasedCanStack._rx_canbus`
+
+  `_read_relay_queue(timeout)`: `try: return self.rx_relay_queue.get(block=True, timeout=timeout)  except queue.Empty: return None`.
+  The `try` body is a `return`, the handler names a class: `tryCatch`, meaning given by `run2` only.  `queue.Empty` is the named exception
+  `"Empty"` (`namedExc "raise Empty"`).  The call is in EXPRESSION position: in this embedding it has a value and no effect on the
+  environment (as `process_hands_over`, ThreadedWorker.lean): THAT the item leaves the queue is the primitive's effect, stated where the
+  queue is a history key (`Spec.qGet`, `WorkerSpec.processFull`); here: which value comes back. -/
+
+/-- **`_read_relay_queue`, every callee**: with fuel `≥ 4`, the value of `get(True, timeout)` is returned unchanged; `queue.Empty` (and
+    only it) is turned into `return None`; any other exception propagates; the environment is untouched. -/
+theorem read_relay_queue_run (M : Meths) (env : Env) (t : PV) (n : Nat) (ht : env "timeout" = some t) (hn : 4 ≤ n) :
+    run2 n M env Src.TransportLayer_p_read_relay_queue =
+      match M.fn "self.rx_relay_queue.get#block#timeout" [pbool true, t] env with
+      | .ok v => .ok (.ret v env)
+      | .error e =>
+        match ofPErr env e with
+        | .ok (.raised x env1) => if catches "Empty" x then .ok (.ret pnone env1) else .ok (.raised x env1)
+        | r => r := by
+  obtain ⟨j, rfl⟩ : ∃ j, n = j + 4 := ⟨n - 4, by omega⟩
+  have hs : execStmt M env (.ret (.call "self.rx_relay_queue.get#block#timeout" (.cons .tt (.cons (.var "timeout") .nil)))) =
+      match M.fn "self.rx_relay_queue.get#block#timeout" [pbool true, t] env with
+      | .ok v => .ok (.returned v env)
+      | .error e => .error e := by
+    simp only [execStmt, eval, evalArgs, ht, ok_bind, evalBuiltin_none "self.rx_relay_queue.get#block#timeout" _ (by decide)]
+    cases M.fn "self.rx_relay_queue.get#block#timeout" [pbool true, t] env <;> rfl
+  have hh : ∀ env1, exec2B (j + 2) M env1 (.cons (.ret .none) .nil) = .ok (.ret pnone env1) := by
+    intro env1
+    rw [exec2B_cons, exec2S_simple _ _ _ _ rfl]
+    rfl
+  unfold run2 Src.TransportLayer_p_read_relay_queue
+  rw [exec2B_cons, exec2S_tryCatch, exec2B_cons, exec2S_simple _ _ _ _ rfl]
+  unfold simple2
+  rw [hs]
+  cases M.fn "self.rx_relay_queue.get#block#timeout" [pbool true, t] env with
+  | ok v => rfl
+  | error e =>
+    simp only
+    rcases ofPErr_cases env e with ⟨cls, h⟩ | ⟨er, h⟩
+    · rw [h]
+      simp only
+      cases hc : catches "Empty" cls
+      · simp
+      · simp only [if_true, hh]
+    · rw [h]
+
+/-- what `get(block=True, timeout=...)` answers on a relay queue `q` (items shown through `obj`; `None` is the wake-up token): its head,
+    or `queue.Empty` after the timeout when there is none -/
+def relayGet (obj : CanMsg → PV) : List (Option CanMsg) → Except PErr PV
+  | [] => .error (.unsupported "raise Empty")
+  | x :: _ => .ok (optObj obj x)
+
+def relayMeths (obj : CanMsg → PV) (q : List (Option CanMsg)) : Meths where
+  fn name args _ :=
+    match name, args with
+    | "self.rx_relay_queue.get#block#timeout", [_, _] => relayGet obj q
+    | _, _ => .error (.unsupported ("call " ++ name))
+  proc name _ _ := .error (.unsupported ("call " ++ name))
+
+/-- what one call of `_read_relay_queue` gives the logic layer -/
+def relayRead (q : List (Option CanMsg)) : Option CanMsg :=
+  match q with
+  | some m :: _ => some m
+  | _ => none
+
+/-- **`_read_relay_queue(timeout)` on a relay queue `q`**: the head of the queue when it is a message; `None` when the head is the wake-up
+    token AND when the queue is empty (`queue.Empty` caught) - the two are indistinguishable to the caller, which is what the model's
+    `TL.takeUntilNone` relies on (`relayRead_none_iff`). -/
+theorem read_relay_queue_agrees (obj : CanMsg → PV) (q : List (Option CanMsg)) (env : Env) (t : PV) (n : Nat)
+    (ht : env "timeout" = some t) (hn : 4 ≤ n) :
+    run2 n (relayMeths obj q) env Src.TransportLayer_p_read_relay_queue = .ok (.ret (optObj obj (relayRead q)) env) := by
+  rw [read_relay_queue_run _ env t n ht hn]
+  have hG : (relayMeths obj q).fn "self.rx_relay_queue.get#block#timeout" [pbool true, t] env = relayGet obj q := rfl
+  rw [hG]
+  match q with
+  | [] => rfl
+  | none :: _ => rfl
+  | some m :: _ => rfl
+
+/-- the first read returns `None` exactly when the model's worker takes no frame out of the queue -/
+theorem relayRead_none_iff (q : List (Option CanMsg)) : relayRead q = none ↔ (TL.takeUntilNone q).1 = [] := by
+  match q with
+  | [] => simp [relayRead, TL.takeUntilNone]
+  | none :: _ => simp [relayRead, TL.takeUntilNone]
+  | some m :: r => simp [relayRead, TL.takeUntilNone]
+
+/-- an exception other than `queue.Empty` is NOT caught -/
+theorem read_relay_queue_other_exc (M : Meths) (env : Env) (t : PV) (n : Nat) (e : PyExc) (ht : env "timeout" = some t) (hn : 4 ≤ n)
+    (h : M.fn "self.rx_relay_queue.get#block#timeout" [pbool true, t] env = .error (.exc e)) :
+    run2 n M env Src.TransportLayer_p_read_relay_queue = .ok (.raised e.name env) := by
+  rw [read_relay_queue_run M env t n ht hn, h]
+  cases e <;> rfl
+
+/-- the first semantics gives `tryCatch` no meaning (why `run2` is used) -/
+theorem read_relay_queue_first_semantics (M : Meths) (env : Env) :
+    runFn M env Src.TransportLayer_p_read_relay_queue = .error (.unsupported "try") := rfl
+
+/-- **`NotifierBasedCanStack._rx_canbus(timeout)`**: the exact guard is `self.buffered_reader is None` (-> `None`, nothing is read);
+    otherwise ONE call `_read_isotp_message(self.buffered_reader.get_message, timeout)` whose result is returned unchanged.  `R`: any
+    callee (`rxCanbusMeths`, PyCan.lean). -/
+theorem nb_rx_canbus_agrees (R : List PV → Env → Except PErr PV) (env : Env) (br gm t : PV)
+    (hb : env "self.buffered_reader" = some br) (hg : br ≠ pnone → env "self.buffered_reader.get_message" = some gm)
+    (ht : env "timeout" = some t) :
+    runFn (rxCanbusMeths R) env Src.NotifierBasedCanStack_p_rx_canbus =
+      if br = pnone then .ok (pnone, env) else (R [gm, t] env).map (fun v => (v, env)) := by
+  by_cases h : br = pnone
+  · subst h
+    simp [runFn, Src.NotifierBasedCanStack_p_rx_canbus, execBlock, execStmt, eval, hb]
+  · have hg' := hg h
+    have hbq : (br == pnone) = false := by simpa using h
+    simp [runFn, Src.NotifierBasedCanStack_p_rx_canbus, execBlock, execStmt, eval, evalArgs, hb, hg', ht, hbq, h,
+      evalBuiltin_none "_read_isotp_message" _ (by decide), rxCanbusMeths_read]
+    cases R [gm, t] env <;> rfl
+
+/-- ... in the presentation of Threaded.lean (`Thr.NbShows env reader n`): the reader exists exactly between `start()` and `stop()`
+    (`NotifierBasedCanStack.start` / `.stop`, Threaded.lean section 7), so messages are read iff the stack is started -/
+theorem nb_rx_canbus_shows (R : List PV → Env → Except PErr PV) (env : Env) (reader : Bool) (n : Int) (gm t : PV)
+    (hS : Thr.NbShows env reader n) (hg : env "self.buffered_reader.get_message" = some gm) (ht : env "timeout" = some t) :
+    runFn (rxCanbusMeths R) env Src.NotifierBasedCanStack_p_rx_canbus =
+      if reader then (R [gm, t] env).map (fun v => (v, env)) else .ok (pnone, env) := by
+  rw [nb_rx_canbus_agrees R env _ gm t hS.1 (fun _ => hg) ht]
+  cases reader <;> simp
+
+/-- **linked to the interpreted `_read_isotp_message`** (PyCan.lean, item 3; `get_message` reading the pending results `pre ++ rest`):
+    with a reader, the value is the reference `firstUsable` - the FIRST data frame converted (`pyCanToIsotp`), error / remote frames
+    before it skipped, `None` on a timed-out read; without a reader `None`, whatever is pending. -/
+theorem nb_rx_canbus_linked (clock : Nat → Int) (K : List PV → Except PErr PV) (obj : CanMsg → PV)
+    (hK : ∀ c, K (canMessageArgs c) = .ok (obj c)) (hobj : ∀ c, obj c ≠ pnone)
+    (pre rest : List (Option PyCanMsg)) (env : Env) (reader : Bool) (l : Int) (gm : PV) (τ : Int) (fuel : Nat)
+    (hS : Thr.NbShows env reader l) (hg : env "self.buffered_reader.get_message" = some gm)
+    (ht : env "timeout" = some (pint τ)) (hp : env "#bus_pos" = some (pint pre.length)) (hf : (firstUsable rest).2 + 9 ≤ fuel) :
+    runFn (rxCanbusMeths (readFnOfSrc (pre ++ rest) clock K fuel)) env Src.NotifierBasedCanStack_p_rx_canbus =
+      .ok (if reader then optObj obj (firstUsable rest).1 else pnone, env) := by
+  rw [nb_rx_canbus_shows _ env reader l gm (pint τ) hS hg ht]
+  cases reader
+  · rfl
+  · obtain ⟨env', h, -⟩ := read_isotp_message_agrees clock K obj hK hobj pre rest (readCalleeEnv gm (pint τ) env) τ fuel hp rfl hf
+    simp only [if_true, readFnOfSrc, h, map_ok]
+
+/-! ## 7. Non-vacuity: every hypothesis-carrying theorem applied in a concrete world -/
+
+/-- the four bindings the accessors read, for every state -/
+def accEnv (s : State) : Env :=
+  envOf [("self.rx_state", pubRxStPV s.rxState), ("self.RxState.IDLE", pubRxStPV .idle),
+    ("self.tx_state", txStPV s.txState), ("self.TxState.TRANSMIT_CF", txStPV .transmitCf)]
+
+/-- the enum constants used are the dumped ones -/
+example : ("self.RxState.IDLE", pubRxStPV .idle) ∈ Src.consts ∧ ("self.TxState.TRANSMIT_CF", txStPV .transmitCf) ∈ Src.consts := by decide
+
+example (s : State) : runFn noMeths (accEnv s) Src.TransportLayerLogic_is_rx_active = .ok (pbool s.isRxActive, accEnv s) :=
+  is_rx_active_agrees s noMeths (accEnv s) rfl rfl
+example (s : State) :
+    runFn noMeths (accEnv s) Src.TransportLayerLogic_is_tx_transmitting_cf = .ok (pbool (decide (s.txState = .transmitCf)), accEnv s) :=
+  is_tx_transmitting_cf_agrees s noMeths (accEnv s) rfl rfl
+example (s : State) : ∃ env : Env, Has env (pubRxAttrs s) ∧ Has env pubRxConsts ∧ Has env (txAttrs s) ∧ Has env txConsts := by
+  have h := has_envOf_keys (pubRxAttrs s ++ pubRxConsts ++ (txAttrs s ++ txConsts))
+    (pubRxKeys ++ pubRxConsts.map (·.1) ++ (txKeys ++ txConsts.map (·.1))) rfl (by decide)
+  exact ⟨_, h.append_left.append_left, h.append_left.append_right, h.append_right.append_left, h.append_right.append_right⟩
+
+/-- a timer started at 5 with a timeout of 10 ns, read at 7 -/
+def exTimer : Timer := { start := some 5, timeout := 10 }
+theorem exTimer_mono : Mono exTimer 7 := by intro s h; cases h; decide
+
+example : runFn (secMeths 7) (timerEnv exTimer) Src.Timer_remaining = .ok (secs 8, timerEnv exTimer) :=
+  timer_remaining_linked exTimer 7 exTimer_mono
+example : runFn (secMeths 7) (timerEnv exTimer) Src.Timer_elapsed = .ok (secs 2, timerEnv exTimer) :=
+  timer_elapsed_agrees (secMeths 7) exTimer 7 _ (secMeths_arith 7) (secMeths_clock 7) rfl exTimer_mono
+example : runFn (secMeths 7) (timerEnv {}) Src.Timer_elapsed = .ok (pint 0, timerEnv {}) :=
+  timer_elapsed_int (secMeths 7) {} 7 _ (secMeths_arith 7) (secMeths_clock 7) rfl
+example : timer_remaining_calls (secMeths 7) (timerEnv exTimer) = timer_remaining_calls (secMeths 7) (timerEnv exTimer) := rfl
+
+/-- Consecutive Frames being sent, the STmin timer as above -/
+def exState : State := { cfg := default, addr := default, txState := .transmitCf, timerStmin := exTimer }
+
+example : ∃ env : Env, Has env (txAttrs exState) ∧ Has env txConsts ∧ Mono exState.timerStmin 7 ∧
+    runFn (cfMeths 7) env Src.TransportLayerLogic_next_cf_delay = .ok (secs 8, env) ∧
+    runFn (cfMeths 16) env Src.TransportLayerLogic_next_cf_delay = .ok (pint 0, env) := by
+  have h := has_envOf_keys (txAttrs exState ++ txConsts) (txKeys ++ txConsts.map (·.1)) rfl (by decide)
+  have hm : Mono exState.timerStmin 16 := by intro s h; cases h; decide
+  exact ⟨_, h.append_left, h.append_right, exTimer_mono,
+    next_cf_delay_linked exState 7 _ h.append_left h.append_right exTimer_mono,
+    next_cf_delay_linked exState 16 _ h.append_left h.append_right hm⟩
+
+/-- not transmitting: `None` -/
+example : ∃ env : Env, runFn (cfMeths 7) env Src.TransportLayerLogic_next_cf_delay = .ok (pnone, env) := by
+  have h := has_envOf_keys (txAttrs { exState with txState := .waitFc } ++ txConsts) (txKeys ++ txConsts.map (·.1)) rfl (by decide)
+  exact ⟨_, next_cf_delay_linked { exState with txState := .waitFc } 7 _ h.append_left h.append_right exTimer_mono⟩
+
+example : nextCfDelay exState 7 ≠ pnone := cfDelayOf_ne_none exState 7 _ rfl (by simp [secs, pnone])
+
+/-- a world for `workerPrims_of_src`: the three entries are the interpreted sources; the two `Timer` methods answer constants in
+    ThreadedWorker's integer convention -/
+def wBase : Meths where
+  fn name args env :=
+    match name, args with
+    | "self.is_tx_transmitting_cf", [] => retM noMeths env Src.TransportLayerLogic_is_tx_transmitting_cf
+    | "self.timer_tx_stmin.is_timed_out", [] => .ok (pbool false)
+    | "self.timer_tx_stmin.remaining", [] => .ok (pint 3)
+    | _, _ => .error (.unsupported ("call " ++ name))
+  proc name _ _ := .error (.unsupported ("call " ++ name))
+
+def wM : Meths where
+  fn name args env :=
+    match name, args with
+    | "self.is_rx_active", [] => retM noMeths env Src.TransportLayerLogic_is_rx_active
+    | "self.next_cf_delay", [] => retM wBase env Src.TransportLayerLogic_next_cf_delay
+    | "self.is_tx_throttled", [] => .ok (pbool false)
+    | n, a => wBase.fn n a env
+  proc name args env :=
+    match name, args with
+    | "self.params.wait_func", [_] => .ok env
+    | _, _ => .error (.unsupported ("call " ++ name))
+
+def wR (env : Env) (s : State) : Prop :=
+  env "self.rx_state" = some (pubRxStPV s.rxState) ∧ env "self.RxState.IDLE" = some (pubRxStPV .idle) ∧
+  env "self.tx_state" = some (txStPV s.txState) ∧ env "self.TxState.TRANSMIT_CF" = some (txStPV .transmitCf)
+
+example (s : State) : wR (accEnv s) s := ⟨rfl, rfl, rfl, rfl⟩
+
+theorem wM_prims : Thr.WorkerPrims wM wR := by
+  have hcf : ∀ env s, wR env s → ∀ M : Meths,
+      retM M env Src.TransportLayerLogic_is_tx_transmitting_cf = .ok (pbool (decide (s.txState = .transmitCf))) := by
+    intro env s h M
+    rw [retM, is_tx_transmitting_cf_agrees s M env h.2.2.1 h.2.2.2]; rfl
+  have hdelay : ∀ env s, wR env s → ∀ M : Meths,
+      M.fn "self.is_tx_transmitting_cf" [] env = retM noMeths env Src.TransportLayerLogic_is_tx_transmitting_cf →
+      (∀ env, M.fn "self.timer_tx_stmin.is_timed_out" [] env = .ok (pbool false)) →
+      (∀ env, M.fn "self.timer_tx_stmin.remaining" [] env = .ok (pint 3)) →
+      retM M env Src.TransportLayerLogic_next_cf_delay = .ok (if decide (s.txState = .transmitCf) then pint 3 else pnone) := by
+    intro env s h M a b c
+    rw [retM, next_cf_delay_run M env (decide (s.txState = .transmitCf)) false (pint 3) (by rw [a, hcf env s h]) (fun _ => b env)
+      (fun _ _ => c env)]
+    rfl
+  refine workerPrims_of_src (fun _ _ h => h) ?_ ?_ ?_ (fun _ => ⟨false, rfl⟩) (fun _ => ⟨3, rfl⟩) (fun _ _ => rfl) (fun _ => ⟨false, rfl⟩)
+  · intro env s h
+    show retM noMeths env Src.TransportLayerLogic_is_rx_active = _
+    rw [retM, retM, is_rx_active_agrees s noMeths env h.1 h.2.1, is_rx_active_agrees s wM env h.1 h.2.1]
+  · intro env s h
+    show retM noMeths env Src.TransportLayerLogic_is_tx_transmitting_cf = _
+    rw [hcf env s h, hcf env s h]
+  · intro env s h
+    show retM wBase env Src.TransportLayerLogic_next_cf_delay = _
+    rw [hdelay env s h wBase rfl (fun _ => rfl) (fun _ => rfl), hdelay env s h wM rfl (fun _ => rfl) (fun _ => rfl)]
+
+/-- `sleep_time` on an object whose `timings` is shown as an opaque object: interpreter error (not a Python exception) -/
+def dictEnv : Env := envOf [("self.rx_state", pubRxStPV .idle), ("self.tx_state", txStPV .idle), ("self.timings", .meth "dict")]
+example : runFn noMeths dictEnv Src.TransportLayerLogic_sleep_time = .error (.unsupported "in: right operand is not a list literal") :=
+  sleep_time_interp noMeths dictEnv (.enum "RxState" "IDLE") (.enum "TxState" "IDLE") (.meth "dict") rfl rfl rfl
+example : (∃ e, runFn noMeths dictEnv Src.TransportLayerLogic_sleep_time = .error e) ∨
+    (∃ d env', runFn noMeths dictEnv Src.TransportLayerLogic_sleep_time = .ok (d, env') ∧ noMeths.fn "__float__" [.str "0.001"] env' = .ok d) :=
+  sleep_time_dict_outside_subset noMeths dictEnv (.enum "RxState" "IDLE") (.enum "TxState" "IDLE") (.meth "dict") rfl rfl rfl
+
+/-- the two dict operations as callees on the key, for the dict of `__init__` in the state `(IDLE, IDLE)`
+    (`20`, `5`, `1` stand for `0.02`, `0.005`, `0.001` in milliseconds) -/
+def dictMeths : Meths where
+  fn name args _ :=
+    match name, args with
+    | "timings.__contains__", [_] => .ok (pbool true)
+    | "timings.__getitem__", [_] => .ok (pint 20)
+    | "__float__", [_] => .ok (pint 1)
+    | _, _ => .error (.unsupported ("call " ++ name))
+  proc name _ _ := .error (.unsupported ("call " ++ name))
+
+def exIdle : State := { cfg := default, addr := default }
+
+example : ∃ env', runFn dictMeths (accEnv exIdle)
+      (sleepSkeleton (.call "timings.__contains__" (.cons (.var "key") .nil)) (.call "timings.__getitem__" (.cons (.var "key") .nil))) =
+        .ok (pint 20, env') ∧ ∀ k, k ≠ "key" → env' k = accEnv exIdle k :=
+  sleep_skeleton_agrees dictMeths (accEnv exIdle) exIdle (initTimings (pint 20) (pint 5)) (pint 1) _ _ rfl rfl
+    (fun env' h => by
+      simp only [eval, evalArgs, h, ok_bind, evalBuiltin_none "timings.__contains__" _ (by decide)]
+      rfl)
+    (fun env' h v hv => by
+      have : v = pint 20 := by
+        have : (initTimings (pint 20) (pint 5)).lookup (exIdle.rxState, exIdle.txState) = some (pint 20) := rfl
+        rw [this] at hv
+        exact (Option.some.inj hv).symm
+      subst this
+      simp only [eval, evalArgs, h, ok_bind, evalBuiltin_none "timings.__getitem__" _ (by decide)]
+      rfl)
+    (fun _ => rfl)
+
+def rlEnv (mb ws : PV) : Env := envOf [("self.mean_bitrate", mb), ("self.window_size_sec", ws)]
+
+example : runFn (floatMeths pyFloat) (rlEnv (pint 10) (.sc (.py (.float 1 10)))) Src.RateLimiter_can_be_enabled =
+    .ok (pbool true, rlEnv (pint 10) (.sc (.py (.float 1 10)))) :=
+  can_be_enabled_agrees _ pyFloat (floatMeths_conv _) pyFloat_num (rlEnv (pint 10) (.sc (.py (.float 1 10)))) (pint 10)
+    (.sc (.py (.float 1 10))) rfl rfl
+example : runFn (floatMeths pyFloat) (rlEnv pnone (pint 1)) Src.RateLimiter_can_be_enabled =
+    .ok (pbool false, (rlEnv pnone (pint 1)).set "self.error_reason" (.str "mean_bitrate is not numerical")) :=
+  can_be_enabled_agrees _ pyFloat (floatMeths_conv _) pyFloat_num (rlEnv pnone (pint 1)) pnone (pint 1) rfl rfl
+example : runFn (floatMeths pyFloat) (rlEnv (pint 10) (pint 0)) Src.RateLimiter_can_be_enabled =
+    .ok (pbool false, (rlEnv (pint 10) (pint 0)).set "self.error_reason" (.str "window_size_sec must be greater than 0")) :=
+  can_be_enabled_agrees _ pyFloat (floatMeths_conv _) pyFloat_num (rlEnv (pint 10) (pint 0)) (pint 10) (pint 0) rfl rfl
+example : runFn (floatMeths pyFloat) (rlEnv (.sc (.py .nan)) (.sc (.py (.float 1 10)))) Src.RateLimiter_can_be_enabled =
+    .ok (pbool true, rlEnv (.sc (.py .nan)) (.sc (.py (.float 1 10)))) :=
+  can_be_enabled_nan (rlEnv (.sc (.py .nan)) (.sc (.py (.float 1 10)))) rfl rfl
+example : canReason pyFloat (pint 10) (pint 1) = none ∧ canReason pyFloat (.sc (.py .nan)) (pint 1) = none ∧
+    canReason pyFloat (pint 0) (pint 1) = some "mean_bitrate must be greater than 0" := ⟨rfl, rfl, rfl⟩
+
+example : runFn noMeths (envOf [("mean_bitrate", pint 5)]) Src.RateLimiter_set_bitrate =
+    .ok (pnone, (envOf [("mean_bitrate", pint 5)]).set "self.mean_bitrate" (pint 5)) :=
+  set_bitrate_agrees noMeths _ _ rfl
+
+example (m : CanMsg) : run2 4 (relayMeths pyCanObj [some m, none]) (envOf [("timeout", pint 1)]) Src.TransportLayer_p_read_relay_queue =
+    .ok (.ret (pyCanObj m) (envOf [("timeout", pint 1)])) :=
+  read_relay_queue_agrees pyCanObj _ _ (pint 1) 4 rfl (by decide)
+example : run2 4 (relayMeths pyCanObj []) (envOf [("timeout", pint 1)]) Src.TransportLayer_p_read_relay_queue =
+    .ok (.ret pnone (envOf [("timeout", pint 1)])) :=
+  read_relay_queue_agrees pyCanObj _ _ (pint 1) 4 rfl (by decide)
+/-- the fuel bound is tight -/
+example : run2 3 (relayMeths pyCanObj []) (envOf [("timeout", pint 1)]) Src.TransportLayer_p_read_relay_queue = .error .outOfFuel := rfl
+
+/-- a `get` that raises something else -/
+def badGet : Meths where
+  fn _ _ _ := .error (.exc .ValueError)
+  proc _ _ _ := .error (.exc .ValueError)
+example : run2 4 badGet (envOf [("timeout", pint 1)]) Src.TransportLayer_p_read_relay_queue =
+    .ok (.raised "ValueError" (envOf [("timeout", pint 1)])) :=
+  read_relay_queue_other_exc badGet _ (pint 1) 4 .ValueError rfl (by decide) rfl
+
+/-- a started `NotifierBasedCanStack` (reader registered), nothing consumed yet -/
+def nbEnv (reader : Bool) : Env :=
+  envOf [("self.buffered_reader", if reader then .meth "BufferedReader" else pnone), ("#listeners", pint 1),
+    ("self.buffered_reader.get_message", .meth "get_message"), ("timeout", pint 1), ("#bus_pos", pint 0)]
+
+example (reader : Bool) : Thr.NbShows (nbEnv reader) reader 1 := by cases reader <;> exact ⟨rfl, rfl⟩
+
+example (R : List PV → Env → Except PErr PV) (reader : Bool) :
+    runFn (rxCanbusMeths R) (nbEnv reader) Src.NotifierBasedCanStack_p_rx_canbus =
+      if reader then (R [.meth "get_message", pint 1] (nbEnv reader)).map (fun v => (v, nbEnv reader)) else .ok (pnone, nbEnv reader) :=
+  nb_rx_canbus_shows R _ reader 1 _ _ (by cases reader <;> exact ⟨rfl, rfl⟩) (by cases reader <;> rfl) (by cases reader <;> rfl)
+
+example (clock : Nat → Int) (rest : List (Option PyCanMsg)) (reader : Bool) :
+    runFn (rxCanbusMeths (readFnOfSrc ([] ++ rest) clock pyCanCtor ((firstUsable rest).2 + 9))) (nbEnv reader)
+        Src.NotifierBasedCanStack_p_rx_canbus =
+      .ok (if reader then optObj pyCanObj (firstUsable rest).1 else pnone, nbEnv reader) :=
+  nb_rx_canbus_linked clock pyCanCtor pyCanObj pyCanCtor_args pyCanObj_ne_none [] rest _ reader 1 (.meth "get_message") 1 _
+    (by cases reader <;> exact ⟨rfl, rfl⟩) (by cases reader <;> rfl) (by cases reader <;> rfl) (by cases reader <;> rfl) (Nat.le_refl _)
+
 end Isotp.PyAgree.Small
+
+#print axioms Isotp.PyAgree.Small.is_rx_active_agrees
+#print axioms Isotp.PyAgree.Small.is_tx_transmitting_cf_agrees
+#print axioms Isotp.PyAgree.Small.is_rx_active_agrees_has
+#print axioms Isotp.PyAgree.Small.is_tx_transmitting_cf_agrees_has
+#print axioms Isotp.PyAgree.Small.timer_remaining_calls
+#print axioms Isotp.PyAgree.Small.timer_remaining_agrees
+#print axioms Isotp.PyAgree.Small.timer_remaining_linked
+#print axioms Isotp.PyAgree.Small.timer_elapsed_int
+#print axioms Isotp.PyAgree.Small.timer_elapsed_agrees
+#print axioms Isotp.PyAgree.Small.next_cf_delay_run
+#print axioms Isotp.PyAgree.Small.next_cf_delay_agrees
+#print axioms Isotp.PyAgree.Small.cfDelayOf_ne_none
+#print axioms Isotp.PyAgree.Small.next_cf_delay_linked
+#print axioms Isotp.PyAgree.Small.workerPrims_of_src
+#print axioms Isotp.PyAgree.Small.delay_gt_zero_secs
+#print axioms Isotp.PyAgree.Small.sleep_time_src
+#print axioms Isotp.PyAgree.Small.sleep_time_key
+#print axioms Isotp.PyAgree.Small.sleep_time_interp
+#print axioms Isotp.PyAgree.Small.sleep_time_dict_outside_subset
+#print axioms Isotp.PyAgree.Small.sleepTimeOf_init
+#print axioms Isotp.PyAgree.Small.sleep_skeleton_agrees
+#print axioms Isotp.PyAgree.Small.evalCmp_le_zero
+#print axioms Isotp.PyAgree.Small.can_be_enabled_agrees
+#print axioms Isotp.PyAgree.Small.canReason_none_iff
+#print axioms Isotp.PyAgree.Small.can_be_enabled_nan
+#print axioms Isotp.PyAgree.Small.set_bitrate_agrees
+#print axioms Isotp.PyAgree.Small.read_relay_queue_run
+#print axioms Isotp.PyAgree.Small.read_relay_queue_agrees
+#print axioms Isotp.PyAgree.Small.relayRead_none_iff
+#print axioms Isotp.PyAgree.Small.read_relay_queue_other_exc
+#print axioms Isotp.PyAgree.Small.read_relay_queue_first_semantics
+#print axioms Isotp.PyAgree.Small.nb_rx_canbus_agrees
+#print axioms Isotp.PyAgree.Small.nb_rx_canbus_shows
+#print axioms Isotp.PyAgree.Small.nb_rx_canbus_linked
+#print axioms Isotp.PyAgree.Small.wM_prims
